@@ -156,6 +156,18 @@ def run(ck):
     ck.ob("WHO", "sha2 in trie", "hashers", not bad and len(trie_dig) >= 3, "functions creating a SHA-256 state in the trie: %s" % [x.split("::")[-3:] for x in trie_dig], "")
 
     format_rules(ck, c)
+    # store_update_buf pairs child keys with references by position: a finished subtree leaves exactly one reference on
+    # `ref_stack`, in the order in which the work stack is drained. A reference may therefore be pushed only when an element
+    # popped from the work stack is done (stored just now, or found already stored) - never from the loop that enumerates a
+    # node's children, which would reorder the references relative to the keys they are written next to
+    f = getfn(ck, "sc", E, LL + "Node::store_update_buf")
+    if f:
+        pops = [bi for (bi, t) in f.calls(r"Vec::<T, A>::pop$|Vec::<T>::pop$") if "Reference" not in (t["f"].get("self") or "") and "Link" in (f.locals[t["dest"][0]] if t.get("dest") else "")]
+        rpush = [(bi, t) for (bi, t) in f.calls(r"Vec::<T, A>::push$|Vec::<T>::push$") if re.search(r"Reference", f.locals[op_place(t["args"][1])[0]] if op_place(t["args"][1]) else "")]
+        inner = [bi for (bi, t) in rpush if pops and bi in f.reach_from(f.succ(bi), avoid=set(pops))]
+        ck.ob("DOM", f.path, "references-pushed-only-for-drained-elements", len(pops) == 1 and len(rpush) >= 2 and not inner,
+              "each of the %d pushes on the reference stack happens once per element popped from the work stack" % len(rpush) if pops and not inner else
+              "a reference is pushed inside a loop that does not pass through the work stack's pop (the enumeration of a node's children): references no longer line up with the child keys they are stored with", f.loc(inner[0]) if inner else f.loc())
     # the frozen hash reflects every in-place change only if the changed node is detached from its persistent original
     from .c03 import marked_rules
     marked_rules(ck)
